@@ -5,15 +5,21 @@
 package metadata
 
 import (
+	"bytes"
 	"context"
 	"crypto/sha1"
 	"encoding/json"
 	"fmt"
+	"net/http"
+	"net/http/httptest"
 	"net/netip"
 	"strconv"
 	"strings"
+	"sync"
 
+	"github.com/jech/storrent/config"
 	"github.com/jech/storrent/hash"
+	storhttp "github.com/jech/storrent/http"
 	"github.com/jech/storrent/peer"
 	"github.com/jech/storrent/protocol"
 	"github.com/jech/storrent/tor"
@@ -183,6 +189,54 @@ func payload(truth []byte, idx, n int, q string) []byte {
 }
 
 // Replay is the worker-side handler.
+var serveOnce sync.Once
+
+// probeExport asks the web interface for what it derives from the metadata
+// (the .torrent file, the playlist, a file) - the ways in which the metadata
+// is "used" outside the torrent.  C12: nothing of that before an info
+// dictionary with the right SHA-1 is there, and then exactly that dictionary.
+func probeExport(t *tor.Torrent, out *Out, step int) {
+	serveOnce.Do(func() {
+		config.SetDefaultProxy("")
+		storhttp.Serve("127.0.0.1:0")
+	})
+	complete := t.InfoComplete()
+	get := func(target string) *httptest.ResponseRecorder {
+		req := httptest.NewRequest("GET", target, nil)
+		req.Host = "localhost:8088"
+		rec := httptest.NewRecorder()
+		func() {
+			defer func() {
+				if p := recover(); p != nil && p != http.ErrAbortHandler {
+					rec.Code = 599
+				}
+			}()
+			http.DefaultServeMux.ServeHTTP(rec, req)
+		}()
+		return rec
+	}
+	h := t.Hash.String()
+	rec := get("/" + h + ".torrent")
+	if rec.Code == 200 {
+		body := rec.Body.Bytes()
+		if !complete {
+			out.Violations = append(out.Violations, Viol{"C12", "metadata-exported-before-verification",
+				fmt.Sprintf("GET /<hash>.torrent answered 200 with %d bytes while the metadata is being assembled and has not been verified", len(body)), step})
+		} else if sum := sha1.Sum(t.Info); !hash.Hash(sum[:]).Equal(t.Hash) || !bytes.Contains(body, t.Info) {
+			out.Violations = append(out.Violations, Viol{"C12", "forged-metadata-exported",
+				"the .torrent file served does not carry the info dictionary whose SHA-1 is the info-hash", step})
+		}
+	}
+	if !complete {
+		for _, target := range []string{"/" + h + ".m3u", "/" + h + "/some/file"} {
+			if rec := get(target); rec.Code == 200 {
+				out.Violations = append(out.Violations, Viol{"C12", "metadata-used-before-verification",
+					fmt.Sprintf("GET %s answered 200 while the metadata has not been verified", strings.Replace(target, h, "<hash>", 1)), step})
+			}
+		}
+	}
+}
+
 func Replay(in []byte) any {
 	var sc Scenario
 	if err := json.Unmarshal(in, &sc); err != nil {
@@ -208,6 +262,10 @@ func Replay(in []byte) any {
 	peer.VerifSetExt(fp.P, 0, 3, 0)
 	t.VerifAddPeer(fp.P)
 	ctx := context.Background()
+	registered := tor.VerifRegister(t)
+	if registered {
+		defer tor.VerifUnregister(t)
+	}
 	out.Events = append(out.Events, Event{Label{A: "reset"}, observe(t, truth, false)})
 	for k, st := range sc.Steps {
 		crashed := false
@@ -238,6 +296,9 @@ func Replay(in []byte) any {
 		}()
 		s := observe(t, truth, crashed)
 		out.Events = append(out.Events, Event{st, s})
+		if registered && !crashed {
+			probeExport(t, out, k+1)
+		}
 		// C12, model-free: a published dictionary is the authentic one
 		if s.Complete {
 			h := sha1.Sum(t.Info)
